@@ -12,6 +12,10 @@ structure DSt where
   s : St := initSt
   nTok : Nat := 2
   nUsers : Nat := 3
+  /-- contract registry of the directed re-binding histories (`regreset` / `bind` / `sentunder` / `paidin` lines) -/
+  reg : Registry := Registry.init
+  nDen : Nat := 0
+  nCon : Nat := 0
 
 def showTx (t : Tx) : String := s!"{t.id}:{t.sender}:{t.token}:{t.amount}:{t.tax}"
 
@@ -36,6 +40,17 @@ def showState (d : DSt) : String :=
     | none => "-"
     | some u => s!"{u.start}:{u.total}")
   s!"pool={poolS} batches={bS} esc={esc} sup={sup} bal={bal} last={s.lastObserved} usage={usage}"
+
+def showOptNat : Option Nat → String
+  | none => "none"
+  | some n => toString n
+
+/-- both tables of the registry over the denoms / contracts the harness uses: `erc=d:c,… den=c:d,…` -/
+def showReg (d : DSt) : String :=
+  let row (n : Nat) (f : Nat → Option Nat) : List String :=
+    ((List.range n).map (· + 1)).filterMap fun k => (f k).map fun v => s!"{k}:{v}"
+  let j (l : List String) : String := if l.isEmpty then "-" else ",".intercalate l
+  s!"erc={j (row d.nDen d.reg.erc)} den={j (row d.nCon d.reg.den)}"
 
 def showRes : Res → String
   | .ok => "ok"
@@ -128,6 +143,31 @@ def step (d : DSt) (args : List String) : DSt × String :=
       let (s', r) := registerKey d.s v key
       ({ d with s := s' }, showRes r)
     | _, _ => (d, "bad-op")
+  | ["regreset", nd, nc] =>
+    match parseNat? nd, parseNat? nc with
+    | some nd, some nc => ({ d with reg := Registry.init, nDen := nd, nCon := nc }, "ok")
+    | _, _ => (d, "bad-op")
+  | ["bind", path, adm, dn, c] =>     -- path: gov | admin (MsgSetERC20ToTokenDenom) | wasm (set_erc20_to_denom binding)
+    match parseNat? adm, parseNat? dn, parseNat? c with
+    | some adm, some dn, some c =>
+      if path == "gov" then
+        let (r', res) := d.reg.bindGov dn c
+        let d' := { d with reg := r' }
+        (d', showRes res ++ " " ++ showReg d')
+      else if path == "admin" || path == "wasm" then
+        let (r', res) := d.reg.bindAdmin (adm != 0) dn c
+        let d' := { d with reg := r' }
+        (d', showRes res ++ " " ++ showReg d')
+      else (d, "bad-op")
+    | _, _, _ => (d, "bad-op")
+  | ["sentunder", dn] =>      -- the contract an accepted send of denom `dn` is recorded under
+    match parseNat? dn with
+    | some dn => (d, showOptNat (d.reg.recordedUnder dn))
+    | none => (d, "bad-op")
+  | ["paidin", c] =>          -- the denom a transfer / batch recorded under contract `c` is refunded / burned in
+    match parseNat? c with
+    | some c => (d, showOptNat (d.reg.paidIn c))
+    | none => (d, "bad-op")
   | ["estimate", _, _, _] => (d, showState d)   -- recorded by the harness; applied via `endblock … ests`
   | ["endblock", f, h, now, toks, ests] =>
     match parseFault? f, parseNat? h, parseNat? now, parseNatList? toks, parseTriples? ests with
